@@ -112,7 +112,9 @@ pub fn many_event(bytes: &[u8], paths: &[Vec<PE>], run_unchecked: bool) -> J {
     let slots = |base: &[u8], r: Result<Vec<Option<LazyValue>>, sonic_rs::Error>, unchecked: bool| -> J {
         match r {
             Ok(v) => json!({"ok":true,"unchecked":unchecked,"panic":false,"slots": v.iter().map(|o| match o {
-                Some(lv) => { let (a, z) = span(base, lv.as_raw_str().as_bytes()); json!({"some":true,"a":a,"z":z,"raw":bytes_j(lv.as_raw_str().as_bytes())}) }
+                Some(lv) => { let (a, z) = span(base, lv.as_raw_str().as_bytes());
+                    let sv = if lv.is_str() { match lv.as_str() { Some(s) => json!({"some":true,"s":cps(s)}), None => json!({"some":false}) } } else { json!({"some":false,"notstr":true}) };
+                    json!({"some":true,"a":a,"z":z,"raw":bytes_j(lv.as_raw_str().as_bytes()),"sv":sv}) }
                 None => json!({"some":false}) }).collect::<Vec<_>>()}),
             Err(e) => json!({"ok":false,"unchecked":unchecked,"panic":false,"err":err_j(&e)}),
         }
@@ -241,7 +243,10 @@ pub fn schema_doc(rng: &mut Rng) -> (Vec<u8>, Vec<u8>) {
         let in_schema = rng.chance(7, 10);
         if in_schema { if !fs { sch.push(b','); } fs = false; sch.extend_from_slice(format!("\"{}\":", k).as_bytes()); }
         if rng.chance(1, 2) {
-            // nested object
+            // nested object; sometimes the document's object is empty although the schema asks for members of it
+            let doc_empty = rng.chance(1, 4);
+            let mut inner_doc: Vec<u8> = Vec::new();
+            std::mem::swap(&mut inner_doc, &mut doc);
             doc.push(b'{');
             if in_schema { sch.push(b'{'); }
             let full = rng.chance(1, 2);
@@ -258,6 +263,9 @@ pub fn schema_doc(rng: &mut Rng) -> (Vec<u8>, Vec<u8>) {
             }
             if in_schema && !full && rng.chance(1, 2) { if !f2s { sch.push(b','); } sch.extend_from_slice(b"\"zz\":7"); }
             doc.push(b'}');
+            if doc_empty { doc = if rng.chance(1, 2) { b"{}".to_vec() } else { b"{ }".to_vec() }; }
+            std::mem::swap(&mut inner_doc, &mut doc);
+            doc.extend_from_slice(&inner_doc);
             if in_schema { sch.push(b'}'); }
         } else {
             doc.extend_from_slice(*rng.pick(scalars));
@@ -267,6 +275,13 @@ pub fn schema_doc(rng: &mut Rng) -> (Vec<u8>, Vec<u8>) {
     if rng.chance(1, 3) { if !fs { sch.push(b','); } sch.extend_from_slice(b"\"absent\":[0]"); }
     doc.push(b'}');
     sch.push(b'}');
+    // sometimes one level deeper, with members of the enclosing object after it
+    if rng.chance(1, 3) {
+        let k = *rng.pick(&pool);
+        let doc2 = [format!("{{\"{}\":", k).as_bytes(), &doc[..], b",\"b2\":3,\"c2\":[4]}"].concat();
+        let sch2 = [format!("{{\"{}\":", k).as_bytes(), &sch[..], b",\"b2\":2,\"c2\":null}"].concat();
+        return (doc2, sch2);
+    }
     (doc, sch)
 }
 pub fn schema_event(bytes: &[u8], schema: &[u8]) -> J {
@@ -316,6 +331,26 @@ fn blind_path(rng: &mut Rng) -> Vec<PE> {
     (0..rng.below(4)).map(|_| if rng.chance(1, 2) { PE::Idx(rng.below(4)) } else { PE::Key(rng.pick(&["k0", "k1", "k2", "k3", "a", "b", ""]).to_string()) }).collect()
 }
 
+/// A member name longer than a vector block, with escapes, and one raw control byte (or none) somewhere in it: the name has to be
+/// decoded (it is compared with the wanted key) by every checked lookup that walks over it
+pub fn ctrl_name_doc(rng: &mut Rng) -> (Vec<u8>, Vec<PE>) {
+    let len = rng.range(20, 90);
+    let mut name: Vec<u8> = Vec::new();
+    let bad_at = if rng.chance(3, 4) { Some(rng.below(len)) } else { None };
+    for i in 0..len {
+        if Some(i) == bad_at { name.push(*rng.pick(&[0x01u8, 0x09, 0x0a, 0x1f, 0x00])); continue; }
+        match rng.below(12) { 0 => name.extend_from_slice(b"\\n"), 1 => name.extend_from_slice(b"\\\""), 2 => name.extend_from_slice(b"\\u0041"), _ => name.push(b'a' + rng.below(26) as u8) }
+    }
+    let tail = if rng.chance(1, 2) { " ".repeat(rng.below(70)) } else { String::new() };
+    let doc = match rng.below(3) {
+        0 => [&b"{\""[..], &name, b"\":1,\"b\":2}", tail.as_bytes()].concat(),
+        1 => [&b"{\"a\":{\""[..], &name, b"\":[1]},\"b\":2}", tail.as_bytes()].concat(),
+        _ => [&b"[{\""[..], &name, b"\":1},{\"b\":2}]", tail.as_bytes()].concat(),
+    };
+    let path = match doc[0] { b'[' => vec![PE::Idx(1), PE::Key("b".into())], _ => vec![PE::Key("b".into())] };
+    (doc, path)
+}
+
 /// Documents that force the skippers across block edges: a member to be skipped whose strings contain
 /// brackets, quotes and backslash runs, padded so that these land around offsets 30..33 / 62..65 of a block.
 pub fn stress_doc(rng: &mut Rng) -> (Vec<u8>, Vec<PE>) {
@@ -358,20 +393,43 @@ pub fn record(args: &[String]) -> i32 {
     let mut counts = std::collections::HashMap::<&str, u64>::new();
     let mut panics = 0u64;
     for i in 0..n {
+        let mut orig: Option<Vec<u8>> = None;      // the document a mutated one was made from (paths are drawn from it)
         let (doc, origin, spath) = match i % 5 {
             0 | 1 => { let mut g = Gen { rng: &mut rng }; (g.doc(), "gen", None) }
-            2 => { let mut g = Gen { rng: &mut rng }; let d = g.doc(); (g.mutate(&d), "mut", None) }
-            _ => { let (d, p) = stress_doc(&mut rng); if rng.chance(1, 6) { let mut g = Gen { rng: &mut rng }; (g.mutate(&d), "stress-mut", Some(p)) } else { (d, "stress", Some(p)) } }
+            2 if i % 15 == 2 => { let (d, p) = ctrl_name_doc(&mut rng); (d, "ctrl-name", Some(p)) }
+            2 => { let mut g = Gen { rng: &mut rng }; let d = g.doc(); let m = g.mutate(&d); orig = Some(d); (m, "mut", None) }
+            _ => { let (d, p) = stress_doc(&mut rng); if rng.chance(1, 6) { let mut g = Gen { rng: &mut rng }; let m = g.mutate(&d); orig = Some(d); (m, "stress-mut", Some(p)) } else { (d, "stress", Some(p)) } }
         };
         inflight.set(i, &doc);
         // is the document acceptable to the implementation's own validator? (decides only whether the
         // unchecked variants are *called*; whether their results are *judged* is decided by the spec)
         let wf = catch(|| sonic_rs::from_slice::<serde::de::IgnoredAny>(&doc).is_ok()).unwrap_or(false);
         let parsed = catch(|| sonic_rs::from_slice::<Value>(&doc).ok()).unwrap_or(None);
+        // a mutated document that no longer parses: paths (and path sets) come from the document it was made from
+        let parsed_or_orig = match (&parsed, &orig) { (None, Some(o)) => catch(|| sonic_rs::from_slice::<Value>(o).ok()).unwrap_or(None), _ => None };
+        let parsed_paths = parsed.as_ref().or(parsed_or_orig.as_ref());
         let mut paths: Vec<Vec<PE>> = Vec::new();
         if let Some(p) = spath { paths.push(p); }
-        for _ in 0..2 { paths.push(match &parsed { Some(v) if rng.chance(4, 5) => random_path(&mut rng, v), _ => blind_path(&mut rng) }); }
-        let ev: J = match rng.below(10) {
+        for _ in 0..2 { paths.push(match parsed_paths { Some(v) if rng.chance(4, 5) => random_path(&mut rng, v), _ => blind_path(&mut rng) }); }
+        let ev: J = if i % 15 == 7 {
+            // several paths, one of them an index into an array whose elements after the wanted one are damaged (or not)
+            *counts.entry("many").or_default() += 1;
+            let junk: &[&str] = &["tru", "1.e5", "@", "[1 2]", "01", "\"x", "{\"k\" 1}", "nul", "-", "12", "\"ok\"", "[3]", "{\"q\":null}", "1,,2", "\"\\q\""];
+            let k = rng.below(3);
+            let mut arr: Vec<String> = (0..=k).map(|j| format!("{}", 10 + j)).collect();
+            for _ in 0..rng.range(1, 3) { arr.push(rng.pick(junk).to_string()); }
+            let d = match rng.below(3) {
+                0 => format!("{{\"a\":[{}],\"b\":\"b\"}}", arr.join(",")),
+                1 => format!("{{\"a\":[{}],\"b\":{{\"c\":1}}}}", arr.join(", ")),
+                _ => format!("[[{}],\"b\"]", arr.join(",")),
+            };
+            let (p1, p2) = if d.starts_with('[') { (vec![PE::Idx(0), PE::Idx(k)], vec![PE::Idx(1)]) } else { (vec![PE::Key("a".into()), PE::Idx(k)], vec![PE::Key("b".into())]) };
+            let wf2 = catch(|| sonic_rs::from_slice::<serde::de::IgnoredAny>(d.as_bytes()).is_ok()).unwrap_or(false);
+            let mut e = many_event(d.as_bytes(), &[p1, p2], wf2);
+            e["origin"] = json!("many-tail");
+            outs[(i % shards) as usize].line(&e);
+            continue;
+        } else { match rng.below(10) {
             0..=5 => { *counts.entry("get").or_default() += 1; get_event(&doc, &paths[rng.below(paths.len())], wf) }
             6 | 7 => {
                 *counts.entry("many").or_default() += 1;
@@ -379,7 +437,7 @@ pub fn record(args: &[String]) -> i32 {
                 let mut ps = paths.clone();
                 if rng.chance(1, 3) { ps.push(ps[0].clone()); }
                 if rng.chance(1, 3) && !ps[0].is_empty() { let k = rng.below(ps[0].len()); ps.push(ps[0][..k].to_vec()); }
-                if parsed.is_none() { ps.truncate(1); }
+                if parsed_paths.is_none() { ps.truncate(1); }
                 many_event(&doc, &consistent(ps), wf)
             }
             8 => { *counts.entry("iter").or_default() += 1; iter_event(&doc, wf) }
@@ -388,7 +446,7 @@ pub fn record(args: &[String]) -> i32 {
                 Some(v) => { *counts.entry("schema").or_default() += 1; let mut sc = Vec::new(); make_schema(&mut rng, v, 0, &mut sc); schema_event(&doc, &sc) }
                 None => { *counts.entry("iter").or_default() += 1; iter_event(&doc, wf) }
             },
-        };
+        } };
         if ev.to_string().contains("\"panic\":true") { panics += 1; }
         let mut ev = ev;
         ev["origin"] = json!(origin);
